@@ -395,6 +395,13 @@ func judgeWrite(c *wcase) (f *core.Failure, observed string) {
 	}
 	berr, bpan, res, blog := runPolled(q, st, c.B, c.Polls)
 	post, _, ok := modelStep(c.Stmt, st0(c.Prior))
+	logStr := func(ops []store.Op) string {
+		parts := make([]string, len(ops))
+		for i, o := range ops {
+			parts[i] = o.String()
+		}
+		return strings.Join(parts, " ")
+	}
 	if c.Fault1 > 0 {
 		// a storage call failed. How the error travels is C13's subject; here:
 		// success may be reported only for work that was done
@@ -408,19 +415,23 @@ func judgeWrite(c *wcase) (f *core.Failure, observed string) {
 		case bpan != "" || berr != nil || len(res) == 0 || res[0].pan != "":
 			return nil, "error:fault-at-planning"
 		case res[0].err != nil:
+			// the statement failed: polling it again neither repeats its work nor
+			// produces a row (it may report the same error again)
+			for i, pr := range res[1:] {
+				if pr.init {
+					break
+				}
+				if len(pr.log) > 0 || len(pr.rows) > 0 {
+					return &core.Failure{Property: c.Prop, Leg: "transition-vs-model", Sig: "failed-statement-resumed-by-later-poll", Case: c.text(), Data: core.MustJSON(c),
+						Expected: "no storage call and no row from a poll after the statement failed", Observed: fmt.Sprintf("poll %d: rows %v, calls %s", i+1, pr.rows, logStr(pr.log))}, "x"
+				}
+			}
 			return nil, "error:fault-surfaced"
 		case ok && st.Canon() != store.CanonPairs(post):
 			return &core.Failure{Property: c.Prop, Leg: "transition-vs-model", Sig: "success-reported-work-not-done", Case: c.text(), Data: core.MustJSON(c),
 				Expected: "an error, or the post-state " + store.CanonPairs(post), Observed: fmt.Sprintf("no error, rows %v, post-state %s", res[0].rows, st.Canon())}, "x"
 		}
 		return nil, "fault-absorbed"
-	}
-	logStr := func(ops []store.Op) string {
-		parts := make([]string, len(ops))
-		for i, o := range ops {
-			parts[i] = o.String()
-		}
-		return strings.Join(parts, " ")
 	}
 	if bpan != "" {
 		return mk("panic", "the statement is planned", "panic: "+bpan), "panic"
@@ -531,7 +542,9 @@ func judgeCycle(c, rep *wcase, res []pollResult, got string, st *store.MemStore)
 			if len(pr.log) > 0 {
 				return mk("storage-call-on-later-poll", "no storage call after the statement finished", fmt.Sprintf("poll %d of the execution (word %s): %s", i, rep.Polls, logStr(pr.log))), "x"
 			}
-			if len(pr.rows) > 0 || pr.err != nil {
+			// (a statement that failed may stay failed: the same error again, no row)
+			stillFailed := pr.err != nil && res[0].err != nil && pr.err.Error() == res[0].err.Error()
+			if len(pr.rows) > 0 || pr.err != nil && !stillFailed {
 				return mk("result-on-later-poll", "end of stream", fmt.Sprintf("poll %d of the execution (word %s) returned rows=%v err=%v", i, rep.Polls, pr.rows, pr.err)), "x"
 			}
 		}
@@ -1086,6 +1099,31 @@ func (c12) RunUnit(t core.Tier, u int, r *core.Reporter) {
 				}
 				run(&wstmt{Kind: "put", Pairs: [][2]*ref.Expr{p1, p2, p3}}, ws, bs)
 			}
+		}
+	}
+	// the write itself fails (every storage call of the statement in turn) and
+	// the plan is polled again: the failed statement is not carried out by a
+	// later poll, and reports success only for work that was done
+	faultRun := func(w *wstmt) {
+		for _, polls := range []string{"NN", "BN", "NBB"} {
+			probe := store.New(stt.pairs)
+			runPolled(w.text(), probe, 32, polls[:1])
+			for f := 1; f <= len(probe.Log); f++ {
+				c := wcase{Prop: "C12", Prior: stt.pairs, History: stt.history, Stmt: w, B: 32, Polls: polls, Fault1: f}
+				runWriteCase(r, &c)
+			}
+		}
+	}
+	for _, p1 := range c12PairPool() {
+		faultRun(&wstmt{Kind: "put", Pairs: [][2]*ref.Expr{p1}})
+		for _, p2 := range c12PairPool()[:6] {
+			faultRun(&wstmt{Kind: "put", Pairs: [][2]*ref.Expr{p1, p2}})
+		}
+	}
+	for _, k1 := range c12RemovePool() {
+		faultRun(&wstmt{Kind: "remove", Keys: []*ref.Expr{k1}})
+		for _, k2 := range c12RemovePool()[:4] {
+			faultRun(&wstmt{Kind: "remove", Keys: []*ref.Expr{k1, k2}})
 		}
 	}
 	// long lists with duplicate keys: "overwritten in order, a later duplicate wins"
